@@ -9,7 +9,10 @@ from ..rules_common import run_witnesses
 RULE = (
     "cases = (component relation over 2-6 components, import graph, mode, naming option): components are pairwise "
     "unrelated modules of a random tree (with sub-modules and bystander modules); imports random (WF); both modes "
-    "(should-only / should); both naming options (with_base_module on bare names, and fully qualified names in the file). "
+    "(should-only / should); both naming options (with_base_module on bare names, and fully qualified names in the file); "
+    "the configuration calls on the rule object in the documented chain or as a generated sequence (any order, repeated, with "
+    "overwritten decoy values, chained or as statements: the last file / last base module count); a stream with components that are "
+    "package trees 3-4 levels deep with intra-component imports. "
     "Real DiagramRule().from_file(..).assert_applies vs PtaModel.diagramAssert (verdict and set of message lines) vs "
     "PtaSpec.conforms; and with_base_module(p) vs the same diagram written with p.name components (relational). "
     "distinct_nontrivial = distinct cases with >= 1 arrow and >= 1 import between two components' sub trees."
@@ -24,7 +27,31 @@ def render(components, arrows, rng):
     return "@startuml\n" + "\n".join(lines) + "\n@enduml"
 
 
-def make_case(rng, comps_pool=gen.PLAIN, absent=None, nested=False, big=False):
+def _deepen(rng, nodes, base, kids, comps_pool):
+    """module trees with two to three more levels below the packages p.k (sub packages of sub packages), so that a component
+    is a real package tree and not only a package with leaf modules"""
+    nodes = list(nodes)
+    for k in kids:
+        if rng.random() < 0.8:
+            pk = f"{base}.{k}"
+            subs = [n for n in nodes if n.startswith(pk + ".") and n.count(".") == pk.count(".") + 1 and not n.endswith(".__init__")]
+            if not subs or rng.random() < 0.3:
+                subs.append(f"{pk}.{rng.choice(comps_pool)}")
+                nodes.append(subs[-1])
+            subs = list(dict.fromkeys(subs))
+            for sub in rng.sample(subs, rng.randint(1, len(subs))):
+                for t in rng.sample(comps_pool, rng.randint(1, 2)):
+                    nodes.append(f"{sub}.{t}")
+                    if rng.random() < 0.3:
+                        nodes.append(f"{sub}.{t}.{rng.choice(comps_pool)}")
+    return list(dict.fromkeys(nodes))
+
+
+def _below(nodes, comp, levels=0):
+    return [n for n in nodes if gen.is_desc(n, comp) and n.count(".") >= comp.count(".") + levels]
+
+
+def make_case(rng, comps_pool=gen.PLAIN, absent=None, nested=False, big=False, deep=False):
     # now and then the base package is called like a standard library module (a root package `platform`, `code`, ...)
     base = rng.choice(["p", "p", "p", "platform", "code"])
     pool = [c for c in comps_pool if c != base]
@@ -47,6 +74,8 @@ def make_case(rng, comps_pool=gen.PLAIN, absent=None, nested=False, big=False):
         if "." in b and b.split(".")[0] not in nodes:
             nodes.append(b.split(".")[0])
     nodes = list(dict.fromkeys(nodes))
+    if deep:
+        nodes = _deepen(rng, nodes, base, kids, comps_pool)
     ncomp = rng.randint(2, len(kids))
     comps = kids[:ncomp]
     if nested:
@@ -61,9 +90,24 @@ def make_case(rng, comps_pool=gen.PLAIN, absent=None, nested=False, big=False):
     pairs = gen.wf_pairs(nodes)
     for a, b in arrows:
         if rng.random() < 0.85:
-            src = rng.choice([n for n in nodes if gen.is_desc(n, f"{base}.{a}")])
+            low = _below(nodes, f"{base}.{a}", 2) if deep and rng.random() < 0.7 else []
+            src = rng.choice(low or [n for n in nodes if gen.is_desc(n, f"{base}.{a}")])
             dst = rng.choice([n for n in nodes if gen.is_desc(n, f"{base}.{b}")])
             imps.add((src, dst))
+    if deep:
+        # imports INSIDE a component (a module of the component uses a module lying deeper in the same component): they are
+        # irrelevant for what the diagram demands, whichever module of the component makes the drawn / undrawn imports
+        for k in kids:
+            low = _below(nodes, f"{base}.{k}", 2)
+            for _ in range(rng.choice([0, 1, 1, 2]) if low else 0):
+                dst = rng.choice(low)
+                srcs = [n for n in _below(nodes, f"{base}.{k}", 1) if not gen.related(n, dst)]
+                if srcs:
+                    imps.add((rng.choice(srcs), dst))
+            if low and rng.random() < 0.5 and len(kids) > 1:
+                # an import made by a deep module to some other package (drawn or not)
+                other = rng.choice([x for x in kids if x != k])
+                imps.add((rng.choice(low), rng.choice(_below(nodes, f"{base}.{other}"))))
     for _ in range(rng.choice([0, 0, 1, 1, 2, 3]) if not big else rng.randint(12, 30)):
         imps.add(rng.choice(pairs))
     imps = [e for e in sorted(imps) if e[0] != e[1] and not e[1].startswith(e[0] + ".")]
@@ -89,6 +133,48 @@ def _texts(case):
     r = random.Random(case["seed"])
     qual = render([f"{case['base']}.{c}" for c in case["comps"]], [(f"{case['base']}.{a}", f"{case['base']}.{b}") for a, b in case["arrows"]], r)
     return bare, qual
+
+
+def call_sequence(case, which):
+    """the configuration calls made on one DiagramRule object before assert_applies, as (op, argument, chained?) triples.
+    DiagramRule is one object with independent setters (from_file, with_base_module, base_module_included_in_module_names):
+    what counts is the LAST file and the LAST base module given, in whatever order and however often the setters were called,
+    and whether the calls were chained on the returned object or made as statements on the rule object.  In about half of
+    the cases the documented chain from_file(..).with_base_module(..) / .base_module_included_in_module_names() is used."""
+    import random
+
+    r = random.Random(f"{case['seed']}|{which}")
+    if which == "bare":
+        final = [("file", "bare.puml"), ("base", case["base"])]
+        decoys = [("file", "qual.puml"), ("file", "again.puml"), ("file", "bare.puml"), ("base", "zz"), ("base", case["base"] + "." + case["base"]),
+                  ("base", case["base"])]
+    else:
+        # no with_base_module on this object: the names in the file are complete
+        final = [("file", "qual.puml"), ("incl", None)]
+        decoys = [("file", "bare.puml"), ("file", "qual.puml"), ("incl", None)]
+    if r.random() < 0.5:
+        return [(op, arg, True) for op, arg in final]
+    r.shuffle(final)
+    seq = [r.choice(decoys) for _ in range(r.choice([0, 0, 0, 1, 2, 3]))] + final
+    return [(op, arg, r.random() < 0.5) for op, arg in seq]
+
+
+def configure(rule, seq, project):
+    obj = rule
+    for op, arg, chained in seq:
+        target = obj if chained else rule
+        if op == "file":
+            obj = target.from_file(project.path(arg))
+        elif op == "base":
+            obj = target.with_base_module(arg)
+        else:
+            obj = target.base_module_included_in_module_names()
+    return obj if seq and seq[-1][2] else rule
+
+
+def show_sequence(seq):
+    names = {"file": "from_file", "base": "with_base_module", "incl": "base_module_included_in_module_names"}
+    return " ; ".join(("." if ch else "rule.") + f"{names[op]}({arg if arg is not None else ''})" for op, arg, ch in seq)
 
 
 def _impl(case):
@@ -138,8 +224,7 @@ def _impl(case):
         except Exception as e:  # noqa: BLE001
             out.append(("REUSE", "ERR:" + err_kind(e)))
         for which in ("qual", "bare"):
-            r = DiagramRule(should_only_rule=case["only"]).from_file(p.path(which + ".puml"))
-            r = r.base_module_included_in_module_names() if which == "qual" else r.with_base_module(case["base"])
+            r = configure(DiagramRule(should_only_rule=case["only"]), call_sequence(case, which), p)
             try:
                 r.assert_applies(g)
                 out.append("PASS")
@@ -186,7 +271,8 @@ def judge(ctx, stream, cases):
         elif dom == "d" and icls != s:
             bad = f"DiagramRule verdict {icls} but conformance says {s}"
         elif iq != ib:
-            bad = "with_base_module(p) behaves differently from writing every component as p.name"
+            bad = ("with_base_module(p) behaves differently from writing every component as p.name (configuration calls: "
+                   f"{show_sequence(call_sequence(c, 'bare'))} -> {ib.split(':')[0]} | {show_sequence(call_sequence(c, 'qual'))} -> {iq.split(':')[0]})")
         elif again != iq:
             bad = f"evaluating the same diagram file in the other mode first changes the outcome: {again} vs {iq}"
         elif reuse != ib:
@@ -225,6 +311,12 @@ def run(ctx: Ctx):
         rng = ctx.rng(name)
         cases = [make_case(rng, pool) for _ in range(ctx.size(8000, 200000))]
         judge(ctx, s, cases)
+        s.finish()
+    if not ctx.violations:
+        s = Stream(ctx, "components that are package trees 3-4 levels deep, with imports between modules of the same component and the "
+                        "diagram-relevant imports made by the deep modules")
+        rng = ctx.rng("deep-components")
+        judge(ctx, s, [make_case(rng, gen.PLAIN if k % 3 else ["a", "ab", "a_b", "aa", "b", "ba", "a1", "abc"], deep=True) for k in range(ctx.size(2500, 60000))])
         s.finish()
     if not ctx.violations:
         s = Stream(ctx, "large diagrams (9-12 components) over architectures that violate many of the generated rules at once")
